@@ -250,6 +250,17 @@ class Engine:
             ev = {o["ev"]: o for o in outs}
             res["verdict"] = "ok"
             msgs = []
+            # never written in place, on the error / recovery path either
+            live = b"/cache.json" if case["script"]["mode"] == "cache" else b"/secrets.db"
+            seen_begin = False
+            for e2 in m2:
+                if e2["name"] == "newfstatat" and e2["strs"] and e2["strs"][0] == b"/verif-marker-begin":
+                    seen_begin = True
+                elif e2["name"] == "newfstatat" and e2["strs"] and e2["strs"][0] == b"/verif-marker-end":
+                    break
+                elif seen_begin and e2["name"] == "openat" and e2["strs"] and e2["strs"][0].endswith(live):
+                    if any(f in e2["raw"] for f in ("O_WRONLY", "O_RDWR", "O_TRUNC", "O_APPEND")):
+                        msgs.append("after the injected fault the live file was opened for writing (%s): it must never be written in place" % re.search(r"O_\w+(\|O_\w+)*", e2["raw"]).group(0))
             state = os.path.join(d, "state")
             if kind == "kill":
                 msgs += self.judge_after_kill(case, rec, d)
